@@ -179,7 +179,7 @@ def _validate(case, p, rank, df, where) -> CaseInfo:
 def c16_case(draw):
     o = Opts(steps=[0, 1, 2, 3], w_sync=0, p_zero_op=0, allow_zero_call=False, second_thread=True, autograd=False, device_sync=False,
              annotations=True, w_launch=6, max_top=3, max_depth=2, streams=2, body_fn=template_body, kernel_names=KNAMES)
-    case = draw(sim_case(o, max_ranks=2, extras_trace_span=True, nranks_choices=[2, 1], renumber=False))
+    case = draw(sim_case(o, max_ranks=2, extras_trace_span=True, nranks_choices=[2, 1]))
     rank = draw(st.sampled_from([r["rank"] for r in case["ranks"]]))
     names = sorted({r.name for r in complete_rows(next(x["events"] for x in case["ranks"] if x["rank"] == rank))
                     if r.cat == "cpu_op" and r.stream == -1})
@@ -202,5 +202,5 @@ def view(case):
 def campaigns(tier: str) -> List[Campaign]:
     return [Campaign("sequences", c16_case(), check, quick=480, thorough=11200, quick_shards=8,
                      required_classes={"several_patterns": 0.1, "repeated_pattern": 0.2, "substring_matches_several_names": 0.08,
-                                       "no_pattern": 0.02, "rank_0_after_another_rank": 0.04},
+                                       "no_pattern": 0.02, "rank_0_after_another_rank": 0.015},
                      sample_view=view)]
